@@ -9,14 +9,61 @@ import (
 
 func epName(i int) string { return rig.Hex(fmt.Sprintf("http://127.0.0.1:%d", 20001+i)) }
 
+// spellings of logical server i that validation accepts (lower-case http(s):// prefix, parseable, a host) but that are not
+// the plain form. The gateway keys endpoints by the spec string, so every spelling is a distinct endpoint today; a
+// normalisation applied on one code path and not on another shows up as a disabled (or unknown) endpoint probed or picked.
+func spellings(family, i int) []string {
+	if family == 0 {
+		p := fmt.Sprintf("http://127.0.0.1:%d", 20001+i)
+		return []string{p, p + "/", p + "/base", p + "/base/", p + "//"}
+	}
+	return []string{
+		fmt.Sprintf("http://node-%d.example:80", i),
+		fmt.Sprintf("http://node-%d.example:80/", i),
+		fmt.Sprintf("http://NODE-%d.Example:80", i), // host case
+		fmt.Sprintf("http://node-%d.example", i),    // default port left out
+		fmt.Sprintf("http://node-%d.example:80/api", i),
+		fmt.Sprintf("http://node-%d.example:080", i),
+	}
+}
+
 // genCase builds one history. The generator keeps its own idea of the current server list only to make most ops hit
 // existing endpoints; nothing of the expected behaviour is derived from it.
 func genCase(c *rig.Ctx) Case {
 	r := c.Rng
-	u := 2 + r.Intn(5) // universe size
-	names := make([]string, u)
-	for i := range names {
-		names[i] = epName(i)
+	nl := 2 + r.Intn(5) // logical servers
+	family := 0
+	if r.Intn(4) == 0 {
+		family = 1
+	}
+	pAlt := []float64{0, 0.15, 0.4}[r.Intn(3)] // how often a logical server has further spellings in the universe
+	var names []string                          // the universe of endpoint strings (hex)
+	var logical []int
+	for i := 0; i < nl; i++ {
+		sp := spellings(family, i)
+		names, logical = append(names, rig.Hex(sp[0])), append(logical, i)
+		for _, alt := range sp[1:] {
+			if r.Float64() < pAlt {
+				names, logical = append(names, rig.Hex(alt)), append(logical, i)
+			}
+		}
+	}
+	u := len(names)
+	otherSpelling := func(ep string) string { // another spelling of the same logical server, if the universe has one
+		var c []string
+		for j, n := range names {
+			if n == ep {
+				for k, m := range names {
+					if logical[k] == logical[j] && m != ep {
+						c = append(c, m)
+					}
+				}
+			}
+		}
+		if len(c) == 0 {
+			return ep
+		}
+		return rig.Pick(r, c)
 	}
 	pUp := []float64{0.5, 0.8, 0.95, 1.0}[r.Intn(4)]
 	table := func() []lib.UpEnt {
@@ -66,11 +113,14 @@ func genCase(c *rig.Ctx) Case {
 				servers = append([]lib.Server{}, servers...)
 				servers[i].Dis = !servers[i].Dis
 			}
-		case 6: // duplicate an entry, possibly with the other flag
+		case 6: // duplicate an entry, possibly with the other flag, possibly under another spelling of the same server
 			if len(servers) > 0 {
 				s := servers[r.Intn(len(servers))]
 				if r.Intn(2) == 0 {
 					s.Dis = !s.Dis
+				}
+				if r.Intn(2) == 0 {
+					s.Ep = otherSpelling(s.Ep)
 				}
 				servers = append(append([]lib.Server{}, servers...), s)
 			}
@@ -94,7 +144,11 @@ func genCase(c *rig.Ctx) Case {
 	}
 	syncOp := func() lib.Op {
 		s := append([]lib.Server{}, servers...)
-		return lib.Op{Op: "sync", Servers: s, Policies: genSubsets(), Up: table()}
+		extra := 0
+		if r.Intn(3) == 0 {
+			extra = r.Intn(lib.ExtraKinds) // something unrelated to servers and subsets differs too
+		}
+		return lib.Op{Op: "sync", Servers: s, Policies: genSubsets(), Up: table(), Extra: extra}
 	}
 	var ops []lib.Op
 	ops = append(ops, syncOp())
